@@ -28,6 +28,7 @@ func init() {
 			ruleProtoGrammar(c)
 			// presence in the walker's output: null exactly for an absent value that can be absent
 			ruleNullOnlyForPresence(c)
+			ruleDelegateNonEmpty(c)
 			// stale memory in a re-used slot reads an encoded nil back as the old non-nil pointer
 			ruleClearBeforeRead(c)
 			// a present value stays on the wire even when its body is empty: the tagged form always writes the tag
